@@ -112,7 +112,10 @@ def check_sensitization(acc, desc, n, eps_arg, repeat=False):
     acc.transitions += 1
     try:
         ep_obj = list(eps_arg) if eps_arg else None
-        if repeat:
+        if isinstance(repeat, list):
+            # an earlier call restricted to other endpoints, on the same circuit object, must not matter
+            cg.tx.sensitization_transform(c, n, endpoints=list(repeat))
+        elif repeat:
             cg.tx.sensitization_transform(c, n, endpoints=ep_obj)   # same circuit and same endpoints object again
             if eps_arg and ep_obj != list(eps_arg):
                 acc.violation("sensitization", "endpoints-argument-modified", case, f"{list(eps_arg)} -> {ep_obj}")
@@ -313,6 +316,8 @@ def run_transforms(job, acc):
             if down and (_idx // job["of"]) % 4 == 0:
                 check_sensitization(acc, desc, n, down[:1], repeat=True)
                 check_sensitization(acc, desc, n, None, repeat=True)
+                for e in down:
+                    check_sensitization(acc, desc, n, None, repeat=[e])   # restricted call first, then the default
             # endpoint sets that contain outputs not downstream of n are legal too as long as n is in the fan-in
             other = sorted(outs - set(down) - {n})
             if down and other:
